@@ -24,13 +24,13 @@ def run(prop, tier, seed, out):
         if pol.violated:
             raise Broken("Policy.tla violates " + pol.violated)
         must_pass(pol, "Policy")
-        walk = run_tlc(scr, "encrypt", "Walk", "CONSTANT MaxD = %d\nSPECIFICATION Spec\nINVARIANTS NoLeak DeviationsAreClassified Export\nCHECK_DEADLOCK FALSE\n" % (4 if quick else 5),
+        walk = run_tlc(scr, "encrypt", "Walk", "CONSTANT MaxD = %d\nSPECIFICATION Spec\nINVARIANTS NoLeak DeviationsAreClassified Export\nCHECK_DEADLOCK FALSE\n" % (4 if quick else 6),
                        "walk", workers=1, timeout=1800, heap="4g")
         if walk.violated:
             raise Broken("Walk.tla violates " + walk.violated)
         must_pass(walk, "Walk")
-        tags = run_tlc(scr, "encrypt", "Tags", "SPECIFICATION Spec\nINVARIANTS Export OnlyPublicTagsArePlain UntaggedAreRedacted PublicPreserved TagDictates\nCHECK_DEADLOCK FALSE\n",
-                       "tags", workers=1, timeout=900, heap="3g")
+        tags = run_tlc(scr, "encrypt", "Tags", "CONSTANT MaxTags = %d\nSPECIFICATION Spec\nINVARIANTS Export OnlyPublicTagsArePlain UntaggedAreRedacted PublicPreserved TagDictates\nCHECK_DEADLOCK FALSE\n" % (2 if quick else 3),
+                       "tags", workers=1, timeout=1800, heap="6g")
         if tags.violated:
             raise Broken("Tags.tla violates " + tags.violated)
         must_pass(tags, "Tags")
@@ -38,7 +38,7 @@ def run(prop, tier, seed, out):
         out.add_tlc(walk)
         out.add_tlc(tags)
         reps = []
-        seeds = [seed] if quick else [seed, seed + 1, seed + 2]
+        seeds = [seed] if quick else [seed + i for i in range(5)]
         for s in seeds:
             reps.append(("policy", replay(vh, scr, "policy", pol.out_path, s, "policy-%d" % s)))
             reps.append(("walk", replay(vh, scr, "walk", walk.out_path, s, "walk-%d" % s)))
